@@ -28,6 +28,10 @@
 (*            which uses bytes; the moves onto that segment are laid out   *)
 (*            contiguously from 0; and the plan is correct in every other  *)
 (*            respect (PlanOK with that one segment regarded as empty).    *)
+(*  F18c      (no Dev action: the behaviour is outside the three           *)
+(*            conditions of the statement and is never a violation) a plan *)
+(*            in which a segment is both emptied and filled is counted in  *)
+(*            the statistic plan_chained.                                  *)
 (*  Dev_F18b  validate_spans refuses a span set in which no two spans      *)
 (*            share a byte.  Guard: refused, file untouched, and an empty  *)
 (*            span is listed after a non-empty span with the same offset.  *)
@@ -105,8 +109,10 @@ Judge(e) ==      \* [good, dev, stats']
               ok   == PlanOK(plan, e.segs, e.size)
               dA   == ~ok /\ DevF18a(plan, e.segs, e.thr[1], e.thr[2], e.size)
               \* informational: the real plan is the one of the code-shaped model (corrected cursor, or as listed in F18a)
-              agrees == \/ plan = PlanImpl(e.segs, e.thr[1], e.thr[2], e.size, TRUE)
-                        \/ "F18a" \in KnownDeviations /\ plan = PlanImpl(e.segs, e.thr[1], e.thr[2], e.size, FALSE)
+              agrees == \E cf, nc \in BOOLEAN :
+                          /\ cf \/ "F18a" \in KnownDeviations
+                          /\ nc \/ "F18c" \in KnownDeviations
+                          /\ plan = PlanImpl(e.segs, e.thr[1], e.thr[2], e.size, cf, nc)
           IN [good |-> ok \/ dA, dev |-> IF dA THEN "F18a" ELSE "",
               st |-> [stats EXCEPT !.plans = @ + 1,
                                    !.plans_nonempty = @ + (IF plan # <<>> THEN 1 ELSE 0),
